@@ -236,6 +236,27 @@ func applyProfile(c *RunConfig, ch *simrt.Chooser, p string) {
 		if c.FaultEvery == 0 || c.FaultEvery > 1000 {
 			c.FaultEvery = 600
 		}
+	case "C03f8":
+		// Figure-8 histories: a fixed membership of 3 (sometimes 5) voters, one entry per
+		// AppendEntries so that an old-term entry is acknowledged before the new leader's own
+		// no-op, leaders that keep accepting writes while cut off (their entries stay local),
+		// frequent leader crashes and heals; no snapshots, no membership changes
+		c.Voters = pick(ch, 3, 3, 3, 5)
+		c.NonVoters, c.Spares = 0, 0
+		c.MaxAppendEntries = 1
+		c.SnapshotThreshold = 1 << 30
+		c.SnapshotInterval = time.Hour
+		c.Clients = rangeInt(ch, 2, 3)
+		c.Ops = map[string]int{"apply": 20, "barrier": 1}
+		c.Faults = map[string]int{"isolate_leader": 6, "crash_leader": 4, "heal": 6, "partition": 2, "crash": 1}
+		c.FaultEvery = pick(ch, 150, 300, 600)
+		c.StoreFlavour = FlavourPlain
+		c.HeartbeatFastPath = false
+		c.Pipeline = false
+		c.LongDelayPct = 0
+		c.BugPersistErrPct, c.BugFSMSnapErrPct = 0, 0
+		c.RespDropPct = pick(ch, 0, 30, 100)
+		c.ClientThink = time.Duration(pick(ch, 1, 3)) * time.Millisecond
 	case "C05", "C09":
 		if c.NonVoters == 0 {
 			c.NonVoters = 1 + ch.Choose(simrt.SCfg, 2)
